@@ -49,6 +49,23 @@ fn main() {
                 sc.ops[1] = HostOp::Run { slot: 0, func: f.clone() };
             }
             sc.perms = [Some(true); 6];
+            if let Ok(l) = std::env::var("XSIM_LIMITS") {
+                let mut lim = Limits::calibration();
+                for kv in l.split(',') {
+                    let mut it = kv.split('=');
+                    let (k, v) = (it.next().unwrap_or(""), it.next().and_then(|v| v.parse::<usize>().ok()));
+                    match k {
+                        "size" => lim.size = v,
+                        "depth" => lim.depth = v,
+                        "recursion" => lim.recursion = v,
+                        "calls" => lim.ud_call = v,
+                        "search" => lim.search = v,
+                        "time" => lim.time_ns = v.map(|x| x as u64),
+                        _ => {}
+                    }
+                }
+                sc.limits = lim;
+            }
             match run_scenario(&sc) {
                 Err(e) => println!("COMPILE: {e:?}"),
                 Ok(r) => {
@@ -56,6 +73,7 @@ fn main() {
                         println!("op{i}: {:?} accounted={} calls={}", o.outcome, o.accounted, o.ud_calls);
                     }
                     println!("out={:?}", String::from_utf8_lossy(&r.out));
+                    println!("height={} tails={} frames={}", r.ops.iter().map(|o| o.max_height).max().unwrap_or(0), r.counters.tail_iters, r.counters.frames);
                     println!("problems={:?} final={} events={} enters={} peak={}", r.problems, r.final_accounted, r.events, r.counters.call_enters, r.model_peak);
                 }
             }
